@@ -219,6 +219,7 @@ def _baseline_compute(req):
     kind = req["what"]
     w = World(Scheduler(1), embed="stub")
     w.attach_limit = 10 ** 9
+    w.draw_limit = 10 ** 9
     with w:
         obj = _parse(g, req["text"], req["kind"])
         if kind == "describe":
@@ -565,6 +566,7 @@ def execute(spec):
     sched0 = Scheduler(spec["global_seed"])
     world = World(sched0, embed="stub")
     world.attach_limit = 10 ** 9
+    world.draw_limit = 10 ** 9
     old = signal.signal(signal.SIGALRM, _alarm)
     signal.alarm(300)
     try:
